@@ -173,13 +173,14 @@ def degenerate(rng, name, data, mode):
 DEGEN_MODES = ['zero', 'repeat', 'rank1', 'big', 'small', 'mixedscale', 'fewframes']
 
 
-def case_model(rng, tier, i, degen=False, force_name=None, force_mode=None, force_single=None):
+def case_model(rng, tier, i, degen=False, force_name=None, force_mode=None, force_single=None, scale_few=False):
     name = force_name or mm.MODELS[int(rng.integers(0, len(mm.MODELS)))]
     K = int(rng.integers(1, 5)) if name != 'cacgmm' else int(rng.integers(2, 5))
     D = int(rng.integers(2, 6))
     N = int(rng.integers(2 * K + 2, 25)) if not degen else int(rng.integers(1, 12))
-    if degen and force_mode in ('big', 'small', 'fewframes', 'mixedscale') and rng.random() < 0.6:
+    if degen and force_mode in ('big', 'small', 'fewframes', 'mixedscale') and (rng.random() < 0.6 or (i // 49) % 2 == 0):
         N = int(rng.integers(1, D + 1))          # fewer frames than channels: floored eigenvalues meet extreme scales
+        # (always in the first round of the stratified stream, i.e. in every quick run, for every model)
     if name in mm.INTEGRATION:
         lead = (int(rng.integers(1, 4)),)
     else:
@@ -187,6 +188,10 @@ def case_model(rng, tier, i, degen=False, force_name=None, force_mode=None, forc
     if name == 'cbmm':
         N = min(N, 12)
         D = min(D, 4)
+    if scale_few:
+        # extreme scale meets floored eigenvalues: fewer frames than channels, magnitudes at the end of the stated range
+        K, D, N = int(rng.integers(2, 4)), int(rng.integers(4, 7)), int(rng.integers(2, 4))
+        lead = (int(rng.integers(2, 4)),)
     data = mm.make_data(rng, name, K, D, N, lead, separation=float(rng.choice([0.5, 2.0, 8.0])))
     mode = None
     fit_data = None
@@ -200,6 +205,11 @@ def case_model(rng, tier, i, degen=False, force_name=None, force_mode=None, forc
     init = mm.make_init(rng, K, N, lead, style)
     opts = mm.sample_options(rng, name, K, N, lead, with_aligner=(rng.random() < 0.2))
     iters = int(rng.integers(1, 4))
+    if scale_few:
+        opts = {'weight_constant_axis': (-1,)}
+        if name == 'gcacgmm':
+            opts['covariance_type'] = ['spherical', 'diagonal'][int(rng.integers(0, 2))]     # the spectral stream stays regular
+        style, init = 'dirichlet', mm.make_init(rng, K, N, lead, 'dirichlet')
     _MCOUNT[0] += 1
     single = _MCOUNT[0] % 4 == 0 and (mode in (None, 'zero', 'repeat', 'rank1', 'fewframes'))
     if force_single is not None:
@@ -457,6 +467,9 @@ def cases(rng, tier):
     # degenerate stream, stratified: every model meets every degeneracy in every run
     for i in range(49 if q else 490):
         out.append(case_model(rng, tier, i, degen=True, force_name=mm.MODELS[i % 7], force_mode=DEGEN_MODES[(i // 7) % 7]))
+    for i in range(15 if q else 60):
+        out.append(case_model(rng, tier, i, degen=True, force_name=['gcacgmm', 'vmfcacgmm', 'cacgmm'][i % 3],
+                              force_mode=['big', 'big', 'small', 'big', 'mixedscale'][(i // 3) % 5], scale_few=True))
     # single precision (observations and initial affiliation) meets silent / repeated frames in every model
     for i in range(14 if q else 84):
         out.append(case_model(rng, tier, i, degen=True, force_name=mm.MODELS[i % 7], force_mode=['zero', 'repeat'][(i // 7) % 2],
